@@ -15,12 +15,19 @@
    "Obtained on the way" is expressed through the log: every source that is touched at all
    (in particular every inner stream Flatten pulled and every later argument Join reached) is
    closed exactly once; so is every owned source, touched or not.  Next and Close never overlap:
-   the model (like the code) is sequential. *)
+   the model (like the code) is sequential.
+
+   Panics.  A callback (predicate of Filter/While, function of Map, reduction function of
+   Reduce) may panic at its k-th invocation, a scripted source's Next may panic (EvPanic), Chunk
+   with a negative size panics.  No combinator recovers; the consumer of a step program (the
+   harness) recovers a panicking Next, sees RPanic and goes on; a reducer's panic comes out of
+   the reducer (RPanic) AFTER its deferred Close has run.  All C09 statements below quantify
+   over all pipelines, panicking ones included. *)
 From Juniper Require Import Common.Base Iter.Syntax Iter.Config Iter.ModelBase Iter.IterModel
   Iter.StreamModel Iter.Spec Iter.Events Iter.StreamEvents Iter.StreamProofs Iter.SReducers.
 
-(* k Next calls with any contexts on ANY pipeline (any faults), then Close; for runs that were
-   not cut short by a panic (only Chunk with a negative size can panic) *)
+(* k Next calls with any contexts on ANY pipeline (any faults, any panics), then Close; the
+   completion hypothesis always holds (C09_run_completes_any below) *)
 Theorem C09_steps_then_close : forall cfg p lives,
   NoDup (pipe_ids p) ->
   let run := run_stream_cfg cfg p (Steps (map CNext lives ++ [CClose])) in
@@ -39,8 +46,17 @@ Theorem C09_run_completes : forall cfg p lives,
   = S (length lives).
 Proof. exact stream_steps_complete. Qed.
 
-(* reducers: Collect, Last, Reduce always; One in a configuration where it has `defer s.Close()`
-   (closing_reducer); any pipeline, any faults, any context, panics included *)
+(* ... and for every other pipeline and every consumer program: one observation per operation
+   (a step that panics is observed as RPanic and the run goes on) *)
+Theorem C09_run_completes_any : forall cfg p ops,
+  length (ro_steps (run_stream_cfg cfg p (Steps ops))) = length ops.
+Proof. exact stream_steps_complete_all. Qed.
+
+(* reducers that close by `defer s.Close()` (closing_reducer cfg r: the configuration has the
+   defer - cfg_defer_close -, and r is Collect, Last, Reduce, or One in a configuration where One
+   closes at all): ANY pipeline, any faults, any context, and ANY PANIC - of the reduction
+   function (RSum fl with a panicking fl), of a callback further down, of a source's Next, of
+   Chunk: every owned source is closed exactly once, nothing is used after its Close *)
 Theorem C09_reducers : forall cfg z r live,
   closing_reducer cfg r = true -> NoDup (pz_ids z) ->
   let L := ro_log (run_stream_cfg cfg (inl z) (Reduce r live)) in
@@ -50,9 +66,25 @@ Theorem C09_reducers : forall cfg z r live,
   incl (tids L) (pz_ids z).
 Proof. exact stream_close_reduce. Qed.
 
-(* in the configuration of /repo today every reducer closes *)
+(* the same statement, spelled out for the panicking runs *)
+Theorem C09_reducer_closes_on_panic : forall cfg z r live,
+  closing_reducer cfg r = true -> NoDup (pz_ids z) ->
+  let run := run_stream_cfg cfg (inl z) (Reduce r live) in
+  map so_res (ro_steps run) = [RPanic] ->
+  log_ok (ro_log run) /\
+  forall id, In id (pz_owned z) -> count_close id (ro_log run) = 1%nat.
+Proof.
+  intros cfg z r live Hr Hn run _.
+  destruct (stream_close_reduce cfg z r live Hr Hn) as (H1 & H2 & _). split; assumption.
+Qed.
+
+(* in the configuration of /repo today every reducer closes, by defer *)
 Theorem C09_one_closes_now : closing_reducer current_cfg ROne = true.
 Proof. exact eq_refl. Qed.
+Theorem C09_reducers_close_now : forall fl n,
+  closing_reducer current_cfg RCollect = true /\ closing_reducer current_cfg (RLast n) = true /\
+  closing_reducer current_cfg (RSum fl) = true /\ closing_reducer current_cfg ROne = true.
+Proof. intros; repeat split. Qed.
 
 (* stream.One before the repair (original_cfg) never closed its stream *)
 Theorem C09_one_refuted :
@@ -69,14 +101,19 @@ Proof. intros live f. exact (proj1 (snext_events live f)). Qed.
 
 Print Assumptions C09_steps_then_close.
 Print Assumptions C09_run_completes.
+Print Assumptions C09_run_completes_any.
 Print Assumptions C09_reducers.
+Print Assumptions C09_reducer_closes_on_panic.
 Print Assumptions C09_one_closes_now.
+Print Assumptions C09_reducers_close_now.
 Print Assumptions C09_one_refuted.
 Print Assumptions C09_step.
 
 (* ---- panic-freedom on the documented domain (proofs: theories/Iter/GapsPanic.v) ----
-   dom p: every Chunk size is >= 1 (Iter/Spec.v).  Nothing else is assumed: scripted sources may
-   fail transiently or fatally, callbacks may fail, contexts may be expired. *)
+   dom p: every Chunk size is >= 1 (Iter/Spec.v); no_panics p = true: no callback panics, no
+   scripted source has an EvPanic.  Nothing else is assumed: scripted sources may fail
+   transiently or fatally, callbacks may return errors, contexts may be expired.
+   sdom s: the same for states. *)
 From Juniper Require Import Iter.GapsPanic.
 
 (* no Next of any state of the domain panics; the domain is closed under Next *)
@@ -88,19 +125,32 @@ Proof. exact snext_no_panic. Qed.
 (* every consumer program (any mix of Next with live/expired contexts and Close) runs to its
    end on a pipeline of the domain: one observation per operation, none of them a panic *)
 Theorem C09_no_panic_dom : forall cfg p ops,
-  dom p ->
+  dom p -> no_panics p = true ->
   let run := run_stream_cfg cfg p (Steps ops) in
   length (ro_steps run) = length ops /\ ~ In RPanic (map so_res (ro_steps run)).
 Proof. exact stream_steps_no_panic. Qed.
 
-(* the completion hypothesis of C09_steps_then_close holds on the whole domain *)
+(* the completion hypothesis of C09_steps_then_close holds on the whole domain (and beyond:
+   C09_run_completes_any) *)
 Theorem C09_run_completes_dom : forall cfg p lives,
   dom p ->
   length (ro_steps (run_stream_cfg cfg p (Steps (map CNext lives ++ [CClose]))))
   = S (length lives).
 Proof. exact stream_steps_complete_dom. Qed.
 
-(* C09_steps_then_close without the completion hypothesis *)
+(* C09_steps_then_close without the completion hypothesis, for EVERY pipeline - any faults,
+   panicking callbacks and sources, Chunk sizes outside the domain: after the consumer has
+   recovered whatever panicked and has called Close, every owned source is closed exactly once
+   and nothing was used after its Close *)
+Theorem C09_steps_then_close_any : forall cfg p lives,
+  NoDup (pipe_ids p) ->
+  let L := ro_log (run_stream_cfg cfg p (Steps (map CNext lives ++ [CClose]))) in
+  log_ok L /\
+  (forall id, In id (pipe_owned p) -> count_close id L = 1%nat) /\
+  (forall id, In id (tids L) -> count_close id L = 1%nat) /\
+  incl (tids L) (pipe_ids p).
+Proof. exact stream_close_steps_any. Qed.
+
 Theorem C09_steps_then_close_dom : forall cfg p lives,
   dom p -> NoDup (pipe_ids p) ->
   let L := ro_log (run_stream_cfg cfg p (Steps (map CNext lives ++ [CClose]))) in
@@ -111,17 +161,18 @@ Theorem C09_steps_then_close_dom : forall cfg p lives,
 Proof. exact stream_close_steps_dom. Qed.
 
 (* C09_reducers has no completion hypothesis (its deferred Close also runs when the body
-   panics).  In addition: on the domain no reducer panics - Last for n >= 1, and for every n in
-   a configuration with the guard (the code of /repo now) *)
+   panics).  In addition: on the domain, when nothing panics by itself, no reducer panics - Last
+   for n >= 1, and for every n in a configuration with the guard (the code of /repo now); Reduce
+   with a reduction function that does not panic (reducer_dom) *)
 Theorem C09_reducers_no_panic : forall cfg z r live,
-  dom_z z -> reducer_dom cfg r ->
+  dom_z z -> no_panics_z z = true -> reducer_dom cfg r ->
   map so_res (ro_steps (run_stream_cfg cfg (inl z) (Reduce r live))) <> [RPanic].
 Proof. exact stream_reduce_no_panic. Qed.
 
 (* non-vacuity: a run of a domain pipeline with a transient error, an expired context, a
    failing callback and a fatal source error; outside the domain Chunk does panic *)
 Example C09_no_panic_demo :
-  dom no_panic_demo_pipe /\
+  dom no_panic_demo_pipe /\ no_panics no_panic_demo_pipe = true /\
   map so_res (ro_steps (run_stream no_panic_demo_pipe
                           (Steps [CNext true; CNext false; CNext true; CNext true;
                                   CNext true; CNext true; CClose])))
@@ -130,11 +181,82 @@ Proof. exact no_panic_demo. Qed.
 Example C09_panic_outside_dom :
   map so_res (ro_steps (run_stream (inr (LChunk (-1) (ZSrc 0 (SSlice [1]))))
                                    (Steps [CNext true; CNext true])))
-  = [RPanic].
+  = [RPanic; RPanic].
 Proof. exact panic_outside_dom. Qed.
+
+(* ---- C09 under panics: non-vacuity ---- *)
+(* Collect over a Filter whose predicate panics at its 2nd invocation, over a Join of two
+   sources: RPanic, and the deferred Close has closed both sources exactly once *)
+Example C09_collect_panicking_filter :
+  NoDup (pz_ids panic_filter_pipe) /\ pz_owned panic_filter_pipe = [0; 1]%nat /\
+  no_panics_z panic_filter_pipe = false /\
+  run_stream_cfg fixed_cfg (inl panic_filter_pipe) (Reduce RCollect true)
+  = mkRunObs [mkStepObs RPanic [2; 0]] [SevNext 0; SevNext 0; SevClose 0; SevClose 1]%nat.
+Proof. exact collect_panicking_filter. Qed.
+
+(* Reduce whose reduction function panics at its 3rd invocation *)
+Example C09_reduce_panicking_function :
+  run_stream_cfg fixed_cfg (inl (ZSrc 0 (SSlice [1; 2; 3; 4]))) (Reduce (RSum (pan_fl 2)) true)
+  = mkRunObs [mkStepObs RPanic [3]] [SevNext 0; SevNext 0; SevNext 0; SevClose 0]%nat /\
+  closing_reducer fixed_cfg (RSum (pan_fl 2)) = true.
+Proof. exact reduce_panicking_function. Qed.
+
+(* Last over a source whose Next panics *)
+Example C09_last_panicking_source :
+  run_stream_cfg fixed_cfg (inl (ZSrc 0 (SScript [EvItem 1; EvPanic; EvItem 2])))
+                 (Reduce (RLast 2) true)
+  = mkRunObs [mkStepObs RPanic [2]] [SevNext 0; SevNext 0; SevClose 0]%nat.
+Proof. exact last_panicking_source. Qed.
+
+(* a step program: the consumer recovers the panic of the 2nd Next (the item Filter had pulled
+   is lost), goes on and closes *)
+Example C09_steps_panicking_filter :
+  run_stream (inl panic_filter_pipe) (Steps [CNext true; CNext true; CNext true; CClose])
+  = mkRunObs [mkStepObs (RItem (IZ 1)) [1; 0]; mkStepObs RPanic [2; 0];
+              mkStepObs (RItem (IZ 3)) [3; 0]; mkStepObs RUnit [3; 0]]
+             [SevNext 0; SevNext 0; SevNext 0; SevClose 0; SevClose 1]%nat.
+Proof. exact steps_panicking_filter. Qed.
+
+(* ---- the breaking change "explicit Close instead of defer" is refuted ----
+   explicit_close_cfg (Iter/Config.v): the reducers call s.Close() before each return instead of
+   `defer s.Close()`.  The statement C09_reducers for that configuration,
+     forall z r live, r closes -> NoDup (pz_ids z) ->
+       forall id, In id (pz_owned z) -> count_close id (log of Reduce r on z) = 1,
+   is FALSE: a reduction function that panics leaves the source unclosed after the caller has
+   recovered the panic (observation RPanic, no SevClose in the source's log). *)
+Theorem C09_reducer_explicit_close_refuted :
+  exists z r live, NoDup (pz_ids z) /\
+    closing_reducer fixed_cfg r = true /\
+    let run := run_stream_cfg explicit_close_cfg (inl z) (Reduce r live) in
+    map so_res (ro_steps run) = [RPanic] /\
+    exists id, In id (pz_owned z) /\ count_close id (ro_log run) = 0%nat.
+Proof. exact stream_explicit_close_refuted. Qed.
+
+(* the same for a callback further down (Collect), a panicking source (Last) and One *)
+Theorem C09_reducer_explicit_close_refuted_others :
+  (exists id, In id (pz_owned panic_filter_pipe) /\
+     count_close id (ro_log (run_stream_cfg explicit_close_cfg (inl panic_filter_pipe)
+                                            (Reduce RCollect true))) = 0%nat) /\
+  count_close 0 (ro_log (run_stream_cfg explicit_close_cfg
+                           (inl (ZSrc 0 (SScript [EvItem 1; EvPanic; EvItem 2])))
+                           (Reduce (RLast 2) true))) = 0%nat /\
+  count_close 0 (ro_log (run_stream_cfg explicit_close_cfg
+                           (inl (ZSrc 0 (SScript [EvPanic])))
+                           (Reduce ROne true))) = 0%nat.
+Proof. exact stream_explicit_close_refuted_others. Qed.
+
+(* the configuration with explicit Close is not a closing one *)
+Theorem C09_explicit_close_not_closing : forall r, closing_reducer explicit_close_cfg r = false.
+Proof. intros r. reflexivity. Qed.
 
 Print Assumptions C09_step_no_panic.
 Print Assumptions C09_no_panic_dom.
 Print Assumptions C09_run_completes_dom.
+Print Assumptions C09_steps_then_close_any.
 Print Assumptions C09_steps_then_close_dom.
 Print Assumptions C09_reducers_no_panic.
+Print Assumptions C09_collect_panicking_filter.
+Print Assumptions C09_reduce_panicking_function.
+Print Assumptions C09_reducer_explicit_close_refuted.
+Print Assumptions C09_reducer_explicit_close_refuted_others.
+Print Assumptions C09_explicit_close_not_closing.
